@@ -189,10 +189,10 @@ fn c28_separator_name() {
     assert!(snippet_separator(Value::True) == "space", "a single value is a space list");
     assert!(snippet_separator(Value::Null) == "space");
 }
-fn pos_of(r: Result<Value, CallError>) -> Option<i64> {
+fn pos_of(r: Result<Value, CallError>) -> Option<f64> {
     match r {
         Ok(Value::Null) => None,
-        Ok(Value::Numeric(n, _)) => n.value.into_integer().ok(),
+        Ok(Value::Numeric(n, _)) => Some(f64::from(n.value.clone())),
         _ => {
             assert!(false, "list.index returns a number or null");
             None
@@ -200,24 +200,36 @@ fn pos_of(r: Result<Value, CallError>) -> Option<i64> {
     }
 }
 /// C28: list.index gives the first 1-based position of an `==` element, or
-/// null.  Lists of at most 4 elements, all element values.
-#[kani::proof]
-#[kani::unwind(6)]
-fn c28_index_first_position() {
-    let e: [u8; 4] = kani::any();
-    let n: usize = kani::any();
-    kani::assume(n <= 4);
+/// null.  Lists of N elements (concrete N: a symbolic length makes the
+/// allocation size symbolic), all element values.
+fn index_law<const N: usize>() {
+    let e: [u8; N] = kani::any();
     let x: u8 = kani::any();
-    let got = pos_of(snippet_list_index(e[..n].to_vec(), x));
+    let got = pos_of(snippet_list_index(e.to_vec(), x));
     let mut want = None;
-    let mut k = n;
+    let mut k = N;
     while k > 0 {
         k -= 1;
         if e[k] == x {
-            want = Some(k as i64 + 1);
+            want = Some((k + 1) as f64);
         }
     }
     assert!(got == want, "index: first 1-based position of an == element, null when absent");
+}
+#[kani::proof]
+#[kani::unwind(6)]
+fn c28_index_first_position_n0() {
+    index_law::<0>()
+}
+#[kani::proof]
+#[kani::unwind(6)]
+fn c28_index_first_position_n2() {
+    index_law::<2>()
+}
+#[kani::proof]
+#[kani::unwind(6)]
+fn c28_index_first_position_n4() {
+    index_law::<4>()
 }
 
 // ---- whole closures (bounded): complete bodies of list.join, append and
